@@ -4,6 +4,7 @@
 //!   drive gen <family,family,...> <seed> <n>     op lines `<mode> <op> <args> => <result>` on stdout
 //!   drive search <property> <tier> <seed> [hints-file]   JSON report on stdout
 mod gen;
+mod pword;
 mod rng;
 mod search;
 
